@@ -73,7 +73,7 @@ class Concretizer:
         if isinstance(v, bool) or v is None: return v
         if isinstance(v, int): return v
         if is_sym(v): return self.num(v)
-        if isinstance(v, Str): return Str(self.string(v))
+        if isinstance(v, Str): return Str(self.string(v), canon=(True if v.canon is True else [self.val(x) for x in v.canon] if v.canon else None))
         if isinstance(v, Agg): return Agg(v.name, [self.val(x) for x in v.fields])
         if isinstance(v, Enum): return Enum(v.name, v.variant, [self.val(x) for x in v.fields])
         if isinstance(v, VecV): return VecV([self.val(x) for x in v.items])
@@ -102,18 +102,6 @@ def dec_str(x):
     return ('%d.%018d' % (w, f)).rstrip('0')
 
 
-def mock_canonicalize(s):
-    out = list(s.lower().encode()) + [0] * (90 - len(s.encode()))
-    rot = sum(out) % 90
-    out = out[rot:] + out[:rot]
-    for _ in range(10):
-        mid = len(out) // 2; l, r = out[:mid], out[mid:]
-        nxt = []
-        for i in range(mid): nxt.append(r[i]); nxt.append(l[i])
-        out = nxt
-    return bytes(out)
-
-
 class Serde:
     def __init__(self, prog): self.prog = prog
 
@@ -125,7 +113,7 @@ class Serde:
         if isinstance(v, int):
             if ty and ty.strip() in ('u128', 'i128'): return str(v)
             return v
-        if isinstance(v, Str): return v.s
+        if isinstance(v, Str): return list(raw_bytes(v)) if v.canon else v.s
         if isinstance(v, VecV): return [self.tj(x) for x in v.items]
         if isinstance(v, MapV): return {str(self.tj(k)): self.tj(x) for k, x in v.pairs}
         if isinstance(v, Opaque):
@@ -152,6 +140,7 @@ class Serde:
             if v.name == 'std::option::Option': return None if v.variant == 'None' else self.tj(v.fields[0], ty)
             rec = self.prog.adts.get(v.name)
             tag = snake(v.variant)
+            if v.name.endswith('SubMsgResult') and v.variant == 'Err': tag = 'error'      # #[serde(rename = "error")]
             if rec is None:
                 if not v.fields: return tag
                 raise ValueError('no ADT record for enum ' + v.name)
@@ -183,13 +172,19 @@ class Serde:
                 if not n: break
             return base64.b64encode(b'\x0a' + var + js).decode()
         if isinstance(p, Opaque) and p.tag == 'instantiate_data':
-            return base64.b64encode(b'\x0a' + bytes([len(p.payload.s)]) + p.payload.s.encode()).decode()
+            addr, data = p.payload if isinstance(p.payload, (tuple, list)) else (p.payload, None)
+            out = b'\x0a' + bytes([len(addr.s)]) + addr.s.encode()
+            if data is not None:
+                js = json.dumps(self.tj(data), separators=(',', ':')).encode()
+                assert len(js) < 128
+                out += b'\x12' + bytes([len(js)]) + js
+            return base64.b64encode(out).decode()
         raise ValueError('binary payload %r' % (p,))
 
 
 def kbytes(p):
     if isinstance(p, Ref): p = p.get()
-    if isinstance(p, Str): return p.s.encode()
+    if isinstance(p, Str): return raw_bytes(p)
     if isinstance(p, bool): return bytes([int(p)])
     if isinstance(p, int): return p.to_bytes(8, 'big')
     if isinstance(p, Agg):
@@ -232,6 +227,7 @@ def snapshot(world):
     w.allow = list(world.allow); w.supply = dict(world.supply); w.hooks = {k: list(v) for k, v in world.hooks.items()}
     w.admin = {k: dup(v) for k, v in world.admin.items()}
     w.smart_table = list(getattr(world, 'smart_table', []))
+    w.cinfo = getattr(world, 'cinfo', None)
     return w
 
 
@@ -263,6 +259,7 @@ def scenario(prog, sc, model):
                         contract=env.fields[2].fields[0].fields[0].s),
                info=dict(sender=info.fields[0].fields[0].s, funds=sd.tj(info.fields[1])) if info is not None else dict(sender='nobody', funds=[]),
                msg=sd.tj(conc.val(sc['msg'])))
+    if getattr(w, 'cinfo', None): out['contract_info'] = dict(code_id=w.cinfo['code_id'], creator=w.cinfo['creator'], admin=w.cinfo.get('admin'), pinned=False, ibc_port=None)
     return out, conc
 
 
